@@ -5,6 +5,8 @@
  *   cccp <kind cctx|cstream> <id=val,...> <size> <seed>                 estimate*_usingCCtxParams(p) + exactly p
  *   dstatic <W> <hex-frame> <in-chunks> <out-chunks>     static DStream of exactly ZSTD_estimateDStreamSize(W)
  *   dheap <windowLogMax> <hex-frame> <in-chunks> <out-chunks>   heap DStream with a counting allocator: verdict + peak live bytes + ZSTD_sizeof_DCtx
+ *   dheapw <W bytes> <hex-frame> <in-chunks> <out-chunks>       same, limit set in bytes with ZSTD_DCtx_setMaxWindowSize
+ *       (heap modes: a single request above ZSTD_estimateDStreamSize(limit) is recorded as bigreq=<bytes> and denied; the frame may be incomplete: 'ok' = not refused so far)
  * All static memory comes from an exact-size malloc (ASan redzones right at both ends). */
 #include "zvh_common.h"
 #include "zstd_decompress_internal.h"   /* to read zds->inBuffSize / outBuffSize at frame ends (C14 buffer-sizing tie) */
@@ -27,9 +29,10 @@ static size_t parse_csv(char* s, size_t* a, size_t max) { size_t n = 0; char* sv
 
 /* ---- counting / failing allocator ---- */
 typedef struct { void* p; size_t sz; int live; int freeCount; } rec_t;
-static rec_t* g_recs; static size_t g_nrecs, g_caprecs; static size_t g_live, g_peak; static long g_failAt = -1, g_failAt2 = -1, g_allocCalls; static int g_foreignFree, g_doubleFree;
+static rec_t* g_recs; static size_t g_nrecs, g_caprecs; static size_t g_live, g_peak; static long g_failAt = -1, g_failAt2 = -1, g_allocCalls; static int g_foreignFree, g_doubleFree; static size_t g_reqCap, g_bigReq;
 static void* cnt_alloc(void* opaque, size_t size) { void* p; (void)opaque; g_allocCalls++;
     if (g_allocCalls == g_failAt || g_allocCalls == g_failAt2) return NULL;
+    if (g_reqCap && size > g_reqCap) { if (size > g_bigReq) g_bigReq = size; return NULL; }   /* beyond the documented budget: recorded, never granted */
     p = malloc(size ? size : 1); if (!p) return NULL;
     if (g_nrecs == g_caprecs) { g_caprecs = g_caprecs ? g_caprecs * 2 : 256; g_recs = (rec_t*)realloc(g_recs, g_caprecs * sizeof *g_recs); }
     g_recs[g_nrecs].p = p; g_recs[g_nrecs].sz = size; g_recs[g_nrecs].live = 1; g_recs[g_nrecs].freeCount = 0; g_nrecs++;
@@ -38,7 +41,7 @@ static void cnt_free(void* opaque, void* p) { size_t i; (void)opaque; if (!p) re
     for (i = g_nrecs; i-- > 0; ) if (g_recs[i].p == p && g_recs[i].live) { g_recs[i].live = 0; g_recs[i].freeCount++; g_live -= g_recs[i].sz; free(p); return; }
     for (i = g_nrecs; i-- > 0; ) if (g_recs[i].p == p) { g_doubleFree++; return; }
     g_foreignFree++; }
-static void cnt_reset(void) { g_nrecs = 0; g_live = g_peak = 0; g_allocCalls = 0; g_foreignFree = g_doubleFree = 0; g_failAt = g_failAt2 = -1; }
+static void cnt_reset(void) { g_nrecs = 0; g_live = g_peak = 0; g_allocCalls = 0; g_foreignFree = g_doubleFree = 0; g_failAt = g_failAt2 = -1; g_reqCap = g_bigReq = 0; }
 static size_t cnt_leaks(void) { size_t i, n = 0; for (i = 0; i < g_nrecs; i++) if (g_recs[i].live) n++; return n; }
 static void cnt_release_leaks(void) { size_t i; for (i = 0; i < g_nrecs; i++) if (g_recs[i].live) { free(g_recs[i].p); g_recs[i].live = 0; } }
 static ZSTD_customMem const g_cmem = { cnt_alloc, cnt_free, NULL };
@@ -92,13 +95,15 @@ int main(void) {
                     else if (!roundtrip_ok(src, m, dst, r)) { printf("FAIL use %d: round trip broken\n", k + 1); bad = 1; } }
                 if (!bad) printf("ok need=%zu\n", need);
                 free(mem); free(src); free(dst); }
-        } else if (!strcmp(op, "dstatic") || !strcmp(op, "dheap")) {
-            int isStatic = !strcmp(op, "dstatic"); size_t W = (size_t)strtoull(strtok(NULL, " "), NULL, 10); size_t n; unsigned char* in = zv_unhex(strtok(NULL, " "), &n);
+        } else if (!strcmp(op, "dstatic") || !strcmp(op, "dheap") || !strcmp(op, "dheapw")) {
+            int isStatic = !strcmp(op, "dstatic"); int byBytes = !strcmp(op, "dheapw"); size_t budget = 0; size_t W = (size_t)strtoull(strtok(NULL, " "), NULL, 10); size_t n; unsigned char* in = zv_unhex(strtok(NULL, " "), &n);
             size_t ic[64], oc[64]; size_t ni = parse_csv(strtok(NULL, " "), ic, 64), no = parse_csv(strtok(NULL, " "), oc, 64);
             char bufs[400]; size_t bl = 0; size_t cap = 1 << 22, consumed = 0, produced = 0, r = 1, ii = 0, oi = 0; unsigned char* out = (unsigned char*)malloc(cap); ZSTD_DCtx* d; void* mem = NULL; size_t need = 0, szof = 0; int idle = 0, calls = 0;
             cnt_reset();
             if (isStatic) { need = ZSTD_estimateDStreamSize(W); mem = malloc(need + 8); d = ZSTD_initStaticDStream((void*)(((size_t)mem + 7) & ~(size_t)7), need); if (d) ZSTD_DCtx_setMaxWindowSize(d, W); }
-            else { d = ZSTD_createDCtx_advanced(g_cmem); ZSTD_DCtx_setParameter(d, ZSTD_d_windowLogMax, (int)W); }
+            else { size_t sr; d = ZSTD_createDCtx_advanced(g_cmem); sr = byBytes ? ZSTD_DCtx_setMaxWindowSize(d, W) : ZSTD_DCtx_setParameter(d, ZSTD_d_windowLogMax, (int)W);
+                if (d && ZSTD_isError(sr)) { printf("FAIL limit refused: %s\n", ZSTD_getErrorName(sr)); ZSTD_freeDCtx(d); cnt_release_leaks(); free(in); free(out); continue; }
+                budget = ZSTD_estimateDStreamSize(byBytes ? W : (size_t)1 << W); g_reqCap = budget; }
             if (!d) { printf("FAIL no context\n"); free(in); free(out); free(mem); continue; }
             while (calls++ < 5000000) { size_t isz = ic[ii++ % ni], osz = oc[oi++ % no]; ZSTD_inBuffer ib; ZSTD_outBuffer ob;
                 if (isz > n - consumed) isz = n - consumed; if (osz > cap - produced) osz = cap - produced;
@@ -109,7 +114,7 @@ int main(void) {
             szof = ZSTD_sizeof_DCtx(d);
             if (ZSTD_isError(r)) printf("err %s", zv_errclass(r)); else printf("ok %zu %016llx", produced, (unsigned long long)XXH64(out, produced, 0));
             bufs[bl] = 0; printf(" bufs=%s", bl ? bufs : "-");
-            if (isStatic) printf(" need=%zu\n", need); else printf(" peak=%zu sizeof=%zu live=%zu est=%zu\n", g_peak, szof, g_live, ZSTD_estimateDStreamSize((size_t)1 << W));
+            if (isStatic) printf(" need=%zu\n", need); else { printf(" peak=%zu sizeof=%zu live=%zu est=%zu", g_peak, szof, g_live, budget); if (g_bigReq) printf(" bigreq=%zu", g_bigReq); printf("\n"); }
             if (!isStatic) { ZSTD_freeDCtx(d); if (cnt_leaks()) printf("LEAK\n"); cnt_release_leaks(); }
             free(in); free(out); free(mem);
         } else if (!strcmp(op, "sdict")) {
